@@ -187,4 +187,141 @@ Proof.
   - intros a Ha. rewrite dv_get_set by lia. rewrite dot_col_vec by exact Hn. destruct (Nat.eqb_spec a i); subst; reflexivity.
 Qed.
 
+(* ---------------- products with known shapes are the model's products ---------------- *)
+Lemma dm_mul_eq A B n q m : dm_nrows A = n -> dm_cols A = q -> dm_cols B = m ->
+  dm_mul N A B = mkdm m (mmul N n q m (dm_rows A) (dm_rows B)).
+Proof. intros <- <- <-. reflexivity. Qed.
+Lemma dm_mulv_eq A (v : list T) n q : dm_nrows A = n -> dm_cols A = q -> dm_mulv N A v = mvmul N n q (dm_rows A) v.
+Proof. intros <- <-. reflexivity. Qed.
+Lemma dv_add_eq (u v : list T) n : length u = n -> dv_add N u v = vadd N n u v.
+Proof. intros <-. reflexivity. Qed.
+Lemma dm_transpose_eq A n m : dm_nrows A = n -> dm_cols A = m -> dm_transpose N A = mkdm n (mtrans N n m (dm_rows A)).
+Proof. intros <- <-. reflexivity. Qed.
+
+(* Ac_ * inverseJtJ_ * JtY_ + Bc_ *)
+Lemma apply_eq s (inv : dmat (T:=T)) (v : list T) : dm_nrows (Ac_ s) = estimateSize_ s -> dm_cols (Ac_ s) = estimateSize_ s ->
+  dm_cols inv = estimateSize_ s ->
+  dv_add N (dm_mulv N (dm_mul N (Ac_ s) inv) v) (Bc_ s) =
+  vadd N (estimateSize_ s) (mvmul N (estimateSize_ s) (estimateSize_ s)
+           (mmul N (estimateSize_ s) (estimateSize_ s) (estimateSize_ s) (dm_rows (Ac_ s)) (dm_rows inv)) v) (Bc_ s).
+Proof.
+  intros H1 H2 H3. rewrite (dm_mul_eq _ _ _ _ _ H1 H2 H3).
+  rewrite (dm_mulv_eq _ _ (estimateSize_ s) (estimateSize_ s)); [|unfold dm_nrows; cbn; apply length_mtab|reflexivity].
+  apply dv_add_eq. unfold mvmul. apply length_tab.
+Qed.
+
+Lemma apply_eq_mk s (rows : list (list T)) (v : list T) : dm_nrows (Ac_ s) = estimateSize_ s -> dm_cols (Ac_ s) = estimateSize_ s ->
+  dv_add N (dm_mulv N (dm_mul N (Ac_ s) (mkdm (estimateSize_ s) rows)) v) (Bc_ s) =
+  vadd N (estimateSize_ s) (mvmul N (estimateSize_ s) (estimateSize_ s)
+           (mmul N (estimateSize_ s) (estimateSize_ s) (estimateSize_ s) (dm_rows (Ac_ s)) rows) v) (Bc_ s).
+Proof. intros H1 H2. apply (apply_eq s (mkdm (estimateSize_ s) rows) v H1 H2 eq_refl). Qed.
+
+Lemma dims_with_JtJ s (f : nat -> nat -> T) : src_dims s -> src_dims (with_JtJ s (mkdm (estimateSize_ s) (mtab (estimateSize_ s) (estimateSize_ s) f))).
+Proof. intros (H1 & H2 & H3 & H4 & H5). unfold src_dims, with_JtJ; cbn. repeat split; auto; try apply length_mtab; apply Forall_mtab. Qed.
+
+(* the state after computeJTJ_(); computeJTY_() *)
+Definition normal_state s : src_ls (T:=T) := with_JtY (with_JtJ s (mkdm (estimateSize_ s) (ls_JtJ N (abs s)))) (ls_JtY N (abs s)).
+
+Lemma tie_normal (D : LsDictOK N) s : src_dims s -> (dataSize_ s <= dm_nrows (J_ s))%nat ->
+  src_computeJTY_ N (src_computeJTJ_ N s) = normal_state s.
+Proof.
+  intros Hd Hn. rewrite (tie_computeJTJ D s Hd Hn). rewrite tie_computeJTY; [reflexivity| |exact Hn].
+  apply dims_with_JtJ. exact Hd.
+Qed.
+
+Lemma est_ok_rows s : ls_wf (abs s) -> (dataSize_ s <= dm_nrows (J_ s))%nat.
+Proof. intros (HJ & _ & Hn & _). cbn [abs ls_J ls_Y ls_n] in *. unfold dm_nrows. lia. Qed.
+
+(* ---------------- estimateUsingCholeskyDecomposition ---------------- *)
+Lemma tie_chol (D : LsDictOK N) s : ldlt_dims -> src_dims s -> ls_wf (abs s) -> ls_est_ok (abs s) = true ->
+  Some (abs (fst (src_estimateUsingCholeskyDecomposition N ldlt_solve s)), snd (src_estimateUsingCholeskyDecomposition N ldlt_solve s))
+  = ls_estimate_chol N inverse_of_src (abs s).
+Proof.
+  intros Hl Hd Hwf Hok. unfold ls_estimate_chol. rewrite Hok.
+  unfold src_estimateUsingCholeskyDecomposition. cbv zeta. rewrite (tie_normal D s Hd (est_ok_rows s Hwf)).
+  destruct Hd as (H1 & H2 & H3 & H4 & H5). cbn [fst snd normal_state with_JtY with_JtJ dataSize_ estimateSize_ Ac_ Bc_ J_ Y_ W_ JtJ_ inverseJtJ_ JtY_].
+  assert (Hc : dm_cols (ldlt_solve (mkdm (estimateSize_ s) (ls_JtJ N (abs s))) (dm_identity N (estimateSize_ s) (estimateSize_ s))) = estimateSize_ s)
+    by (rewrite Hl; reflexivity).
+  rewrite (apply_eq s _ _ H1 H2 Hc). reflexivity.
+Qed.
+
+Lemma dims_chol (D : LsDictOK N) s : ldlt_dims -> src_dims s -> ls_wf (abs s) ->
+  src_dims (fst (src_estimateUsingCholeskyDecomposition N ldlt_solve s)).
+Proof.
+  intros Hl Hd Hwf. unfold src_estimateUsingCholeskyDecomposition. cbv zeta. rewrite (tie_normal D s Hd (est_ok_rows s Hwf)).
+  destruct Hd as (H1 & H2 & H3 & H4 & H5). unfold src_dims, normal_state, with_JtY, with_JtJ, ls_JtJ, ls_JtY; cbn.
+  repeat split; auto; try apply length_mtab; try apply Forall_mtab; try apply length_tab. apply Hl.
+Qed.
+
+(* ---------------- estimateUsingSVD (relative singular-value threshold) ---------------- *)
+Lemma svd_loop_eq (D : LsDictOK N) k (thr : T) (sigma : list T) : length sigma = k ->
+  fold_left (fun M n => if nltb N thr (dm_get N M n n) then dm_set M n n (ndiv N (nofZ N 1%Z) (dm_get N M n n)) else M)
+            (seq 0 k) (dm_of_diag N sigma)
+  = mkdm k (mtab k k (fdiag N (svd_inv_diag N thr sigma))).
+Proof.
+  intros Hs.
+  assert (H0 : dm_shape k k (dm_of_diag N sigma)). { unfold dm_of_diag. rewrite Hs. apply dm_shape_mtab. }
+  rewrite (diag_map_fold N k _ (fun x => if nltb N thr x then ndiv N (n_one N) x else x) _); [|clear H0|exact H0].
+  - f_equal. apply mtab_ext. intros a b Ha Hb. unfold dm_get, dm_of_diag; cbn [dm_rows]. rewrite Hs.
+    rewrite !mget_mtab by assumption. unfold fdiag, svd_inv_diag. rewrite Nat.eqb_refl. destruct (Nat.eqb a b); reflexivity.
+  - intros M n HM Hn. rewrite (lsd_one N D). destruct (nltb N thr (dm_get N M n n)) eqn:E.
+    + split; [apply dm_set_shape; [exact HM|lia]|]. intros a b Ha Hb.
+      rewrite (dm_get_set N k k) by (try exact HM; lia). reflexivity.
+    + split; [exact HM|]. intros a b Ha Hb.
+      destruct (Nat.eqb_spec a n), (Nat.eqb_spec b n); cbn [andb]; subst; reflexivity.
+Qed.
+
+Lemma tie_svd (D : LsDictOK N) s : svd_dims -> src_dims s -> ls_wf (abs s) -> ls_est_ok (abs s) = true ->
+  Some (abs (fst (src_estimateUsingSVD N jacobi_svd s)), snd (src_estimateUsingSVD N jacobi_svd s))
+  = ls_estimate_svd N svd_of_src (abs s).
+Proof.
+  intros Hsv Hd Hwf Hok. unfold ls_estimate_svd. rewrite Hok.
+  unfold src_estimateUsingSVD. cbv zeta. rewrite (tie_normal D s Hd (est_ok_rows s Hwf)).
+  destruct Hd as (H1 & H2 & H3 & H4 & H5).
+  cbn [fst snd normal_state with_JtY with_JtJ dataSize_ estimateSize_ Ac_ Bc_ J_ Y_ W_ JtJ_ inverseJtJ_ JtY_].
+  unfold svd_of_src. cbn [abs ls_k fst snd].
+  set (k := estimateSize_ s) in *.
+  set (r := jacobi_svd (mkdm k (ls_JtJ N (abs s)))).
+  assert (Hk : dm_nrows (mkdm k (ls_JtJ N (abs s))) = k). { unfold dm_nrows, ls_JtJ; cbn. apply length_mtab. }
+  destruct (Hsv (mkdm k (ls_JtJ N (abs s)))) as (HU & HV & Hsg). fold r in HU, HV, Hsg. rewrite Hk in HU, HV, Hsg.
+  destruct HU as (HU1 & HU2 & _). destruct HV as (HV1 & HV2 & _).
+  (* the loop over the diagonal *)
+  assert (Hloop : forall thr, fold_left (fun M n => if nltb N thr (dm_get N M n n) then dm_set M n n (ndiv N (nofZ N 1%Z) (dm_get N M n n)) else M)
+            (seq 0 k) (dm_of_diag N (svd_sigma r)) = mkdm k (mtab k k (fdiag N (svd_inv_diag N thr (svd_sigma r))))).
+  { intros thr. apply (svd_loop_eq D). exact Hsg. }
+  rewrite Hloop.
+  (* the pseudo-inverse *)
+  assert (Hpinv : forall thr, dm_mul N (dm_mul N (svd_V r) (mkdm k (mtab k k (fdiag N (svd_inv_diag N thr (svd_sigma r)))))) (dm_transpose N (svd_U r))
+                  = mkdm k (svd_pinv N k thr (dm_rows (svd_U r), svd_sigma r, dm_rows (svd_V r)))).
+  { intros thr. unfold svd_pinv.
+    rewrite (dm_mul_eq (svd_V r) (mkdm k (mtab k k (fdiag N (svd_inv_diag N thr (svd_sigma r))))) k k k HV2 HV1 eq_refl).
+    rewrite (dm_transpose_eq (svd_U r) k k HU2 HU1).
+    rewrite (dm_mul_eq _ _ k k k); [reflexivity|unfold dm_nrows; cbn; apply length_mtab|reflexivity|reflexivity]. }
+  rewrite Hpinv. cbn [dm_rows dm_cols].
+  rewrite (apply_eq_mk s _ _ H1 H2). fold k.
+  (* the threshold: epsilon * sigma_0 when estimateSize_ > 0; with estimateSize_ = 0 there is no singular value to compare *)
+  destruct (Nat.ltb_spec 0 k) as [Hpos|Hz].
+  - reflexivity.
+  - assert (k = 0)%nat by lia. unfold ls_with_inv, ls_apply, abs; cbn. fold k. rewrite H. reflexivity.
+Qed.
+
+Lemma dims_svd (D : LsDictOK N) s : svd_dims -> src_dims s -> ls_wf (abs s) -> src_dims (fst (src_estimateUsingSVD N jacobi_svd s)).
+Proof.
+  intros Hsv Hd Hwf. unfold src_estimateUsingSVD. cbv zeta. rewrite (tie_normal D s Hd (est_ok_rows s Hwf)).
+  destruct Hd as (H1 & H2 & H3 & H4 & H5). unfold src_dims, normal_state, with_JtY, with_JtJ; cbn.
+  repeat split; auto; try (unfold ls_JtJ; apply length_mtab); try (unfold ls_JtJ; apply Forall_mtab); try (unfold ls_JtY; apply length_tab).
+  destruct (Hsv (mkdm (estimateSize_ s) (ls_JtJ N (abs s)))) as ((_ & HU & _) & _ & _).
+  etransitivity; [exact HU|]. unfold dm_nrows, ls_JtJ; cbn [dm_rows]. apply length_mtab.
+Qed.
+
+(* ---------------- computeEstimateCovariance:  Ac_ * inverseJtJ_ * Ac_^T * dataVariance ---------------- *)
+Lemma tie_covariance var s : src_dims s ->
+  src_computeEstimateCovariance N var s = (s, mkdm (estimateSize_ s) (ls_covariance N (abs s) var)).
+Proof.
+  intros (H1 & H2 & H3 & _ & _). unfold src_computeEstimateCovariance, ls_covariance. f_equal. cbn [abs ls_k ls_A ls_inv].
+  rewrite (dm_mul_eq _ _ _ _ _ H1 H2 H3). rewrite (dm_transpose_eq _ _ _ H1 H2).
+  rewrite (dm_mul_eq _ _ (estimateSize_ s) (estimateSize_ s) (estimateSize_ s)); [|unfold dm_nrows; cbn; apply length_mtab|reflexivity|reflexivity].
+  unfold dm_scale, dm_nrows; cbn [dm_rows dm_cols]. unfold mmul at 1. rewrite length_mtab. reflexivity.
+Qed.
+
 End Tie.
